@@ -216,7 +216,17 @@ fn large_inputs(ctx: &Ctx, st: &mut Stats) {
     let watchdog = std::time::Duration::from_secs(if ctx.thorough { 1200 } else { 120 });
     let mut children = vec![];
     for k in &kinds {
-        let child = Command::new(&exe).arg("__c07_large").arg(k).arg(ctx.seed().to_string()).stdout(Stdio::piped()).stderr(Stdio::piped()).spawn();
+        // address space capped (the largest unchanged-tree child peaks at 2.7 GB): a build that runs away aborts on a
+        // failed allocation (inconclusive below) instead of taking the machine down
+        let child = Command::new("sh")
+            .arg("-c")
+            .arg("ulimit -v 16000000; exec \"$0\" __c07_large \"$1\" \"$2\"")
+            .arg(&exe)
+            .arg(k)
+            .arg(ctx.seed().to_string())
+            .stdout(Stdio::piped())
+            .stderr(Stdio::piped())
+            .spawn();
         children.push((k.to_string(), child, std::time::Instant::now()));
     }
     for (kind, child, started) in children {
